@@ -574,17 +574,30 @@ impl IoLoop {
 
         let mut events = Events::with_capacity(128);
         let mut listening_to_channels = true;
+        // The connection timeout measures how long the server has been silent; wake-ups
+        // from other sources (heartbeat timers, the socket becoming writable) must not
+        // restart it.
+        let mut socket_silent_since = Instant::now();
         loop {
-            let start_poll = Instant::now();
+            let poll_timeout = self.connection_timeout.map(|timeout| {
+                timeout
+                    .checked_sub(socket_silent_since.elapsed())
+                    .unwrap_or_else(|| Duration::from_millis(0))
+            });
             self.poll
-                .poll(&mut events, self.connection_timeout)
+                .poll(&mut events, poll_timeout)
                 .context(FailedToPollSnafu)?;
-            if events.is_empty() {
-                if let Some(timeout) = &self.connection_timeout {
-                    if start_poll.elapsed() > *timeout {
-                        return ConnectionTimeoutSnafu.fail();
-                    }
+            if let Some(timeout) = &self.connection_timeout {
+                if events
+                    .iter()
+                    .any(|event| event.token() == STREAM && event.readiness().is_readable())
+                {
+                    socket_silent_since = Instant::now();
+                } else if socket_silent_since.elapsed() > *timeout {
+                    return ConnectionTimeoutSnafu.fail();
                 }
+            }
+            if events.is_empty() {
                 continue;
             }
 
